@@ -41,3 +41,12 @@ for _fn, _secs, _b in (("meta_clone", 26, "Meta part: explicit generator 'G'+s (
     OBLIGATIONS.append(Obl(name=_fn, module="h_partclone", func=_fn, shadow=True, timeout=300, replay="r_h_partclone:" + _fn, weight=_secs, bounds=_b,
                            encodes=["src/odfdo/xmlpart.py:XmlPart.clone,root,body", "src/odfdo/container.py:Container.clone", "src/odfdo/meta.py:Meta.generator,set_generator_default,title"],
                            stubs=["/verif/shadow/lxml (symdom)", "memdoc.MemContainer: dict-backed subclass of Container handed to Document(container)"]))
+
+for _m in range(4):
+    OBLIGATIONS.append(Obl(name=f"doc_clone_{_m}", module="h_partclone", func="doc_clone", shadow=True, timeout=300, env={"VERIF_MASK": str(_m)}, extra={"mask": _m},
+                           replay="r_h_partclone:doc_clone", weight=30,
+                           bounds=("whole Document over the in-memory container: any subset (symbolic) of {body edited, style inserted, title set, binary part added with its manifest entry} "
+                                   f"since the parts were loaded; a stored binary part {'deleted' if _m & 1 else 'kept'}; afterwards the {'clone' if _m & 2 else 'original'} is edited (body, meta, manifest, a new part)"),
+                           encodes=["src/odfdo/document.py:Document.clone,get_part,insert_style,_add_binary_part,del_part", "src/odfdo/container.py:Container.clone (in-memory branch)",
+                                    "src/odfdo/xmlpart.py:XmlPart.root,serialize"],
+                           stubs=["/verif/shadow/lxml (symdom)", "memdoc.MemContainer: dict-backed subclass of Container handed to Document(container)"]))
